@@ -11,7 +11,7 @@ from mirsym.values import *
 from mirsym.harness import *
 from mirsym.report import Violation
 from props.connlib import *
-from props.c02 import collect_simple
+from props.c02 import collect_simple, validate_samples
 
 LEVEL = 'model_checking'
 
@@ -89,6 +89,9 @@ def run(L, rep, tier, seed):
         pred['urls'] = [u.decode('latin1') if u is not None else None for u in urls]
         if cv.blocked is None:
             pred['codes'] = [r.get('status') for r in (cv.responses() or [])]
+            m0 = ctx.model()
+            if m0 is not None:
+                ctx.event('sample', sc(m0))
         want_code = EXPECT[cls]
         delivered_bad = any(u not in (b'/first', b'/after') for u in urls)
         ctx.check_always(z3.BoolVal(not delivered_bad), cls + '/not-delivered', sc)
@@ -119,3 +122,4 @@ def run(L, rep, tier, seed):
             return '417-overtakes-earlier-response'
         return None
     collect_simple(S, rep, 'C10', 'malformed', known)
+    validate_samples(S, rep, 'malformed')
